@@ -161,6 +161,22 @@ var c12Ops = []c12Op{
 			if o == nil {
 				return nil
 			}
+			// the object's own lists viewed through a pointer (set or nil): reading through the pointer must not initialise or reshape them
+			for _, lp := range []*ap.ItemCollection{&o.To, &o.CC, &o.Bto, &o.BCC, &o.Tag, &o.Audience} {
+				fmt.Fprint(&sb, "deref:", len(ap.DerefItem(lp)), lp.Count(), len(lp.Collection()), ap.IsNil(lp), ap.NotEmpty(lp))
+				_ = ap.OnCollectionIntf(lp, func(c ap.CollectionInterface) error {
+					if c != nil {
+						fmt.Fprint(&sb, "intf:", c.Count(), len(c.Collection()))
+					}
+					return nil
+				})
+				_ = ap.OnItemCollection(lp, func(c *ap.ItemCollection) error {
+					if c != nil {
+						fmt.Fprint(&sb, "onitems-ptr:", len(*c))
+					}
+					return nil
+				})
+			}
 			for _, l := range []ap.ItemCollection{o.To, o.CC, o.Tag, o.Audience} {
 				fmt.Fprint(&sb, l.Contains(ap.IRI("https://example.com/none")), len(l.IRIs()), l.Count(), l.First() != nil, ";")
 				if iris, err := ap.ToIRIs(l); err == nil && iris != nil {
